@@ -36,6 +36,9 @@ def run(chk):
                               "%s; closed=%s" % ("4 elements / 2 lists, and 2 elements / 3 lists (list 3 is anchored at another hook of the elements)" if chk.tier == "quick" else "5 elements / 3 lists", closed))
         vlib.run_scripts(chk, slist, c_exe, m_exe, scripts, slist.oracle)
         vlib.run_scripts(chk, slist, c_exe, m_exe, rnd, slist.oracle)
+        mv = slist.moving_visitor_scripts()
+        chk.extra["moving_visitor_scripts_on_the_implementation_only"] = len(mv)
+        vlib.run_impl_only(chk, slist, c_exe, mv, slist.oracle)
         vlib.run_scripts(chk, slist, c_exe, m_exe, slist.sort_pattern_scripts(), slist.oracle)
         big = slist.bigsort_scripts(chk.rng, chk.tier == "quick")
         chk.extra["long_list_sorts"] = [sc[0] for sc in big]
